@@ -2403,3 +2403,7 @@ mod tests {
         }
     }
 }
+
+#[cfg(all(test, feature = "pendulum_project_ntpd_rs_verif"))]
+#[path = "../../../../verif/harness/ntp_proto/packet.rs"]
+mod verif_packet;
